@@ -2,10 +2,17 @@
 degenerate targets through the public s3s::path::{parse_path_style, parse_virtual_hosted_style}, both styles, against
 a reference written from the property."""
 def find(ctx, oblig, diag):
+    if "host." in oblig or "is_socket_addr" in oblig:
+        res = ctx["replay_tool"](["host-style"])
+        if res.get("violates"): res["source"] = "GET /bkt/key with IP / socket-address Host values against a service with a base domain"
+        return res
     if "search" not in ctx["cache"]:
         ctx["cache"]["search"] = ctx["replay_tool"](["path-search"])
     res = dict(ctx["cache"]["search"])
     if res.get("violates"): res["source"] = "boundary/odd-key search through the public path parsers, both addressing styles"
     return res
 
-standing = find
+def standing(ctx, oblig, diag):
+    res = ctx["replay_tool"](["host-style"])
+    if res.get("violates"): res["source"] = "GET /bkt/key with IP / socket-address Host values against a service with a base domain"; return res
+    return find(ctx, "", diag)
